@@ -562,6 +562,12 @@ func (prog *Program) LoadContracts(file string, pkg *types.Package, extern bool)
 					return fmt.Errorf("%s:%d: %v", file, it.line, err)
 				}
 				c.Fn = fn
+				if c.Logs != "" {
+					prog.classSigs[c.Logs] = fn.Signature
+					if rv := fn.Signature.Recv(); rv != nil {
+						prog.classRecv[c.Logs] = rv.Type()
+					}
+				}
 				if _, dup := prog.Contracts[fn]; dup {
 					return fmt.Errorf("%s:%d: duplicate contract for %s", file, it.line, c.Key)
 				}
